@@ -220,7 +220,8 @@ def handlePredict (toks : List String) : Option String := do
   let m ← parseMix sc toks
   let x ← parseObs sc toks m.d
   let ps := x.map (predictProba (ln2pi sc) m.d m.w m.mu m.pc)
-  let labs := ps.map argmaxFirst
+  -- the labels through the model function the theorem `predict_is_argmax` is about
+  let labs := x.map (predict (ln2pi sc) m.d m.w m.mu m.pc)
   let well := x.all fun xi =>
     wellP sc (deltaOf sc m.d m.w m.mu m.pc xi) (logRespStable (weightedLogProb (ln2pi sc) m.d m.w m.mu m.pc xi)).2
   some s!"ok lab={showList toString labs} margin={sh (if well then minF (ps.map fun p => sc.toF (margin p)) else 0.0)}"
